@@ -20,7 +20,7 @@ RULE = ("labellings = product of (orientation pattern, cycle shift, vertex-id ma
 BOUND = {"quick": "deviation bound 2 over 7 labelling classes on a 6-cell curved base; all 2^6/2^7 orientation patterns; all 720 permutations of 6 junction ids; all 120 insertion orders of a 5-cell sub-tissue; deviation bound 1 on tissues with mixed per-interface point counts (6-cell base, lens)",
          "thorough": "d=2 on 7- and 11-cell bases and on square3x3; all 2^11 orientation patterns; 720 permutations on two tissues; all insertion orders of two 5-cell sub-tissues; d=2 on an 8-cell sub-tissue with a cell outside every internal interface and on mixed point counts (11-cell base, lens, 5-fold fan)"}
 ASSUMPTIONS = ["cells are inserted into the dict in construction order, as every parser does", "comparison tolerance 1e-9 (coefficients), 1e-8 x conditioning (tensions, pressures)"]
-REQUIRED_TAGS = {"all": ["orient", "shift", "vmap", "emap", "cids", "order", "eflip", "pressures_compared", "tensions_compared", "undetermined_non_unique_optimum", "same_tensions_although_not_unique", "cell_without_internal_interface"]}
+REQUIRED_TAGS = {"all": ["orient", "shift", "vmap", "emap", "cids", "order", "eflip", "pressures_compared", "tensions_compared", "undetermined_non_unique_optimum", "same_tensions_although_not_unique", "cell_without_internal_interface", "vorder", "eorder"]}
 
 
 def observe(at, cm, k, lab):
@@ -188,6 +188,11 @@ class Labellings(ProductSystem):
             ax["order"] = od
         if "eflip" in cl:
             ax["eflip"] = [None, "all", "alt"]
+        if "storage" in cl:
+            # the order in which vertices / mesh edges are INSERTED into their dicts (what every loop over .values() sees),
+            # independent of the ids they carry
+            ax["vorder"] = [None, "rev", "id", ["rot", 5], ["rot", nv // 2]]
+            ax["eorder"] = [None, "rev", "id", ["rot", 7]]
         self._ax[key] = ax
         return ax
 
@@ -195,7 +200,7 @@ class Labellings(ProductSystem):
         at = self.abstract(base)
         cm = SC.make_cmap(base[2], 0.37, (0, 0), 1.0, SC.extent_of(bases.get(base[0])))
         lab = {"flips": cfg.get("orient", []), "shifts": cfg.get("shift", {}), "vmap": cfg.get("vmap"), "emap": cfg.get("emap"),
-               "cids": cfg.get("cids"), "order": cfg.get("order"), "eflip": cfg.get("eflip")}
+               "cids": cfg.get("cids"), "order": cfg.get("order"), "eflip": cfg.get("eflip"), "vorder": cfg.get("vorder"), "eorder": cfg.get("eorder")}
         obs = observe(at, cm, base[3], lab)
         ax = self.axes(base)
         centre = {a: ax[a][0] for a in ax}
@@ -269,7 +274,7 @@ def six_junction_tissue(base):
 
 def build(tier, seed):
     M = ["m", 0.05, 0.02]
-    all_cl = ["orient", "shift", "vmap", "emap", "cids", "order", "eflip"]
+    all_cl = ["orient", "shift", "vmap", "emap", "cids", "order", "eflip", "storage"]
     if tier == "quick":
         b6 = first_connected("v5x5", 6)
         return [_Counting("labels-d2-small", [["v5x5", b6, M, 2]], 2, all_cl),
